@@ -75,11 +75,12 @@ def run(ctx, rep):
 
     # ------------------------------------------------------------------ R1 k-way merge
     wl = [w for w in walk_nodes(f.node.body, ast.While) if utext(w.test) == "cycles"]
+    heap = [c for c in walk_calls(f.node.body) if call_name(c) in ("heappush", "heappop", "heapify", "heapreplace", "merge", "nsmallest")]
+    if heap:
+        raise AnalysisError("FlumineSimulation.run: heap-based merge recognised but not modelled by this checker "
+                            "(understood idioms: sort by head epoch + pop(0)); whether ties keep their order depends "
+                            "on the heap entries' tie-break field, which this checker does not evaluate")
     if len(wl) != 1:
-        heap = [c for c in walk_calls(f.node.body) if call_name(c) in ("heappush", "heappop", "merge")]
-        if heap:
-            raise AnalysisError("FlumineSimulation.run: heap-based merge recognised but not modelled by this checker "
-                                "(understood idioms: sort by head epoch + pop(0))")
         raise AnalysisError("FlumineSimulation.run: merge loop `while cycles` not found")
     w = wl[0]
     body_calls = walk_calls(w.body)
